@@ -531,6 +531,68 @@ func vfExec(t *testing.T, mode string, ops []string, o *vu.Out) {
 				s.exited = true
 				s.status = vsClosed
 			}
+		case "hexitr", "crstr":
+			// Race: a goroutine started by the handler reads the request body in chunks of n bytes
+			// and is NOT awaited; at the same moment the handler returns (hexitr) or the peer resets
+			// the stream (crstr). Which of pipe.Read / closeStream / noteBodyRead comes first is the
+			// scheduler's choice; whatever it is, every byte must be refunded exactly once.
+			if len(f) != 3 {
+				valid = false
+				break
+			}
+			sid := uint32(vfAtoi(f[1]))
+			n := vfAtoi(f[2])
+			if n < 1 || n > 1<<22 {
+				valid = false
+				break
+			}
+			s := c.streams[sid]
+			racing := s != nil && s.call != nil && !s.exited && s.pend == nil && !(c.keepAlive != 0 && s.id == c.keepAlive)
+			if f[0] == "hexitr" && !racing {
+				if s != nil && s.pend != nil {
+					c.obs = append(c.obs, "busy")
+				} else {
+					c.obs = append(c.obs, "nohandler")
+				}
+				break
+			}
+			start := make(chan struct{})
+			if racing {
+				r := &vfRead{}
+				s.pend = r
+				call := s.call
+				call.do(func(w http.ResponseWriter, req *http.Request) {
+					go func() {
+						<-start
+						buf := make([]byte, n)
+						total := 0
+						for {
+							got, err := req.Body.Read(buf)
+							total += got
+							if err != nil {
+								r.mu.Lock()
+								r.done, r.n, r.err = true, total, err
+								r.mu.Unlock()
+								return
+							}
+						}
+					}()
+				})
+				c.o.Stat("branch:race-" + f[0])
+			}
+			close(start)
+			if f[0] == "hexitr" {
+				s.call.exit()
+				s.exited = true
+				s.status = vsClosed
+			} else {
+				if s == nil {
+					c.dead = true // RST_STREAM on an idle stream is a connection error
+				} else {
+					s.status = vsClosed
+				}
+				c.st.writeRSTStream(sid, ErrCodeCancel)
+			}
 		case "crst":
 			if len(f) != 2 {
 				valid = false
@@ -803,6 +865,30 @@ func vfGen(r *vu.Rng, i int, mode string) []string {
 		s.buffered = 0
 		s.closed, s.open = true, false
 	}
+	if mode == "c10" && r.Chance(1, 5) {
+		// race class: many streams, each torn down while a detached goroutine reads its body
+		ops = ops[:0]
+		ops = append(ops, fmt.Sprintf("reset %d %d", 1<<20, 1<<20))
+		k := r.Range(8, 24)
+		for j := 0; j < k; j++ {
+			id := 2*j + 1
+			ops = append(ops, fmt.Sprintf("hdr %d -1 0", id))
+			for q := r.Range(1, 3); q > 0; q-- {
+				ops = append(ops, fmt.Sprintf("data %d %d -1 0", id, r.Range(1, 30000)))
+			}
+			if r.Chance(1, 4) {
+				ops = append(ops, fmt.Sprintf("read %d %d", id, r.Range(1, 5000)))
+			}
+			chunk := r.Range(1, 70000)
+			if r.Chance(2, 3) {
+				ops = append(ops, fmt.Sprintf("hexitr %d %d", id, chunk))
+			} else {
+				ops = append(ops, fmt.Sprintf("crstr %d %d", id, chunk), fmt.Sprintf("hexit %d", id))
+			}
+		}
+		ops = append(ops, "quiesce")
+		return ops
+	}
 	steps := r.Range(4, 40)
 	if mode == "c11" {
 		steps = r.Range(4, 24)
@@ -833,10 +919,18 @@ func vfGen(r *vu.Rng, i int, mode string) []string {
 				s.bodyClose = true
 			}
 		case k < 77:
-			ops = append(ops, fmt.Sprintf("crst %d", s.id))
+			if r.Chance(1, 3) {
+				ops = append(ops, fmt.Sprintf("crstr %d %d", s.id, r.Range(1, 70000)))
+			} else {
+				ops = append(ops, fmt.Sprintf("crst %d", s.id))
+			}
 			closeSim(s)
 		case k < 82:
-			ops = append(ops, fmt.Sprintf("hexit %d", s.id))
+			if r.Chance(1, 3) {
+				ops = append(ops, fmt.Sprintf("hexitr %d %d", s.id, r.Range(1, 70000)))
+			} else {
+				ops = append(ops, fmt.Sprintf("hexit %d", s.id))
+			}
 			if s.handler {
 				s.handler = false
 				closeSim(s)
